@@ -43,9 +43,9 @@ Definition enc_out_eqb (a : enc_out) (b : list N * list N) : bool :=
 Definition model_agrees (c : case) : bool :=
   match c with
   | CSymEnc false alg key nonce aad pt o =>
-      res_agrees pair_eqb (encrypt_symmetric alg key nonce aad pt) o
+      res_agrees pair_eqb (encrypt_symmetric Fixed alg key nonce aad pt) o
   | CSymEnc true alg key nonce aad pt o =>
-      match encrypt_generic alg key nonce aad pt, o with
+      match encrypt_generic Fixed alg key nonce aad pt, o with
       | Ok a, ObsOk b => enc_out_eqb a b
       | Err s, ObsErr s' _ => sentinel_eqb s s'
       | Panic, ObsPanic => true
@@ -62,7 +62,7 @@ Definition model_agrees (c : case) : bool :=
       end
   | CPad false buf size o => res_agrees eqb_listN (pad_pkcs7 buf size) o
   | CPad true buf size o => res_agrees eqb_listN (unpad_pkcs7 buf size) o
-  | CKw false key data o => res_agrees eqb_listN (aeskw_wrap key data) o
+  | CKw false key data o => res_agrees eqb_listN (aeskw_wrap Fixed key data) o
   | CKw true key data o => res_agrees eqb_listN (aeskw_unwrap Fixed key data) o
   | CCbcHs open kind key nonce data aad o =>
       match aescbcaead_new kind key with
@@ -74,7 +74,7 @@ Definition model_agrees (c : case) : bool :=
   | CPubEnc false alg key ptlen o _ =>
       res_agrees unit_eqb (encrypt_public_key alg key (Z.to_nat ptlen)) o
   | CPubEnc true alg key ptlen o _ =>
-      match encrypt_generic alg key [] [] (repeat 0%N (Z.to_nat ptlen)), o with
+      match encrypt_generic Fixed alg key [] [] (repeat 0%N (Z.to_nat ptlen)), o with
       | Ok EORandom, ObsOk _ => true
       | Err s, ObsErr s' _ => sentinel_eqb s s'
       | _, _ => false
@@ -112,9 +112,12 @@ Definition oracle (c : case) : bool :=
   | CVerify alg key genuine valid o => verify_oracle alg key genuine valid o
   end.
 
-(* 0 = agree and oracle holds; 1 = model and implementation differ; 2 = the implementation's
-   observed behaviour violates the spec. *)
+(* 0 = agree and oracle holds; 1 = model and implementation differ (oracle holds);
+   2 = the implementation's observed behaviour violates the spec and the model reproduces that
+   behaviour (a defect of the code the model mirrors - the only kind a known finding may absorb);
+   3 = it violates the spec and the model does NOT reproduce it (e.g. an edit of the code). *)
 Definition check_case (c : case) : Z :=
-  if negb (oracle c) then 2 else if negb (model_agrees c) then 1 else 0.
+  if negb (oracle c) then (if model_agrees c then 2 else 3)
+  else if negb (model_agrees c) then 1 else 0.
 
 Definition run_cases (cs : list (Z * case)) : list (Z * Z) := failures check_case cs.
